@@ -147,4 +147,5 @@ def main(tier, replay=None):
     chk.assumptions += ["the oracle reads the public struct Type layout (cache words, __Name, __Size, then entries)",
                         "27 built-in types x 30 classes; class structs are arrays of function pointers (member = index)"]
     camp.report()
+    runner.run_pinned(chk, {})          # open findings of this property: listed, identified by the input each entry describes
     return chk.finish()
